@@ -140,8 +140,8 @@ def run(chk, args):
                     for W in (2, 3, 8):
                         matrix.append(dict(multi=False, F=64, W=W, mo=1, retry=rt, auto=au, pre=4 if pre else 0))
     if thorough:
-        sims = matrix
-        nsim = 150
+        sims = [k for i, k in enumerate(matrix) if (i + seed) % 2 == 0]     # half of the matrix, alternating with the seed
+        nsim = 120
     else:
         # a seed-dependent slice of the matrix: 4 multi-file (with and without preallocation) and 2 single-file
         # configurations with pairwise different sync modes
@@ -228,7 +228,7 @@ def run(chk, args):
     comp_all = [1, 2, 3, 4]
     rjobs = []
     for i, (name, (k, bs)) in enumerate(sorted(replay_sets.items())):
-        comp = comp_all if thorough else [comp_all[(seed + i) % 4]]
+        comp = [comp_all[(seed + i) % 4], comp_all[(seed + i + 2) % 4]] if thorough else [comp_all[(seed + i) % 4]]
         if name.startswith("cex"):
             comp = []
         inp = {"cfg": {"Name": name, "Multi": k["multi"], "F": k["F"], "W": k["W"], "MaxOpen": k["mo"], "Retry": k["retry"], "Auto": k["auto"],
